@@ -102,6 +102,39 @@ fn push_values<'s, T: DiffableStr + ?Sized>(
     }
 }
 
+/// Verification hooks (only with `--cfg similar_verif`): the word table of
+/// `MultiLookup`, its `get_original_slices` and `push_values`.
+#[cfg(similar_verif)]
+#[allow(missing_docs, clippy::type_complexity)]
+pub mod verif_inline_internals {
+    use super::{push_values, MultiLookup};
+    use crate::text::DiffableStr;
+
+    pub fn multi_lookup_words<'s, T: DiffableStr + ?Sized>(
+        strings: &[&'s T],
+    ) -> Vec<(&'s T, usize, usize)> {
+        MultiLookup::new(strings).seqs
+    }
+
+    pub fn original_slices<'s, T: DiffableStr + ?Sized>(
+        strings: &[&'s T],
+        idx: usize,
+        len: usize,
+    ) -> Vec<(usize, &'s T)> {
+        MultiLookup::new(strings).get_original_slices(idx, len)
+    }
+
+    pub fn push_values_seq<'s, T: DiffableStr + ?Sized>(
+        calls: &[(usize, bool, &'s T)],
+    ) -> Vec<Vec<(bool, &'s T)>> {
+        let mut v = Vec::new();
+        for &(idx, emphasized, s) in calls {
+            push_values(&mut v, idx, emphasized, s);
+        }
+        v
+    }
+}
+
 /// Represents the expanded textual change with inline highlights.
 ///
 /// This is like [`Change`] but with inline highlight info.
